@@ -124,8 +124,17 @@ class guarded:
         if et is Hang:
             self.acc.mismatch(self.sub, "HANG", self.case, "HANG", "terminates")
             return True
-        if issubclass(et, Exception) or et in (KeyboardInterrupt, SystemExit, GeneratorExit):
+        if et in (KeyboardInterrupt, SystemExit, GeneratorExit) or issubclass(et, (AssertionError, MemoryError)):
             return False
+        if issubclass(et, Exception):
+            # the explorers catch the exceptions a property allows where it allows them; anything that still gets
+            # here was raised by the code under test at a point where the property promises a result
+            import traceback
+            tb = traceback.extract_tb(tb)
+            where = f"{tb[-1].filename.split('/')[-1]}:{tb[-1].name}" if tb else "?"
+            self.acc.mismatch(self.sub, f"raises-{et.__name__}", self.case, f"{et.__name__}: {str(ev)[:80]} @ {where}",
+                              "a result")
+            return True
         self.acc.mismatch(self.sub, f"escapes-{et.__name__}", self.case, f"{et.__name__}: {str(ev)[:80]}",
                           "a value or an ordinary exception")
         return True
